@@ -233,10 +233,27 @@ def sweep(ctx, suite, label, kind, make, kclasses, hi_of, inp_desc, pairs=False,
             plans.append({**pre, j: st})
     if pairs:
         plans += [{i: "kTimeLimit", j: "kUnknown"} for i in range(n) for j in range(i + 1, n)]
+    def accepted(res):
+        t = res["trace"]
+        if not res["solved"]:
+            return None
+        return t[-1][0] if (t and t[-1][1] == "kOptimal") else res.get("given_count")
+    base_k = accepted(base)
     for plan in plans:
         r = run_search(ctx, kind, make, kclasses, plan)
         late = [False] * len(r["trace"]) if timed else None
         compare(ctx, suite, label, dict(inp_desc, plan={str(k): v for k, v in plan.items()}), r, kind, hi, late)
+        # independent of the trace: a fault plan that only makes runs INCONCLUSIVE (at any solver invocation, auxiliary models
+        # - lower bounds, generating sets, given weights - included) hides information but never changes the truth, so a
+        # reported answer must be the fault-free one
+        if base_k is not None and plan and all(st in INCONCLUSIVE for st in plan.values()):
+            ctx.rep.cov["oracle_evaluations"] += 1
+            k_f = accepted(r)
+            if k_f is not None and k_f != base_k:
+                ctx.violation(f"{label}: with the inconclusive solver run(s) {plan} the search reports an answer with k={k_f} "
+                              f"({r['answer']} routes), the fault-free search proves the minimum k={base_k}",
+                              {"class": label, "input": inp_desc, "plan": {str(a): b for a, b in plan.items()}, "trace": r["trace"],
+                               "fault_free_trace": base["trace"], "solver_log": r.get("solver_log")}, site=label + ".solve")
         ctx.rep.count(suite, [label, inp_desc, sorted(plan.items())], nontrivial=r["trace"] != base["trace"],
                       hist=[label] + [f"fault@{'first' if j == 0 else 'later'}" for j, st_ in plan.items() if st_ != "kInfeasible"]
                       + list(plan.values()))
